@@ -186,14 +186,18 @@ Qed.
      - the stripped document has no fixed amount with more decimals than it is presented with (no_excess_doc,
        Calc/FixpointGenProofs.v: C04's hypothesis, under which it re-reads to itself), and
      - same_strict_sign_or_zero: the original and the stripped total with tax are both positive, both negative,
-       or the stripped one is zero. ---- *)
+       or the stripped one is zero.
+   The residue is what totals.rounding presents (none when the two totals with tax agree), and
+   payable_is_twt_plus_rounding t: t_payable t = t_twt t + t_rounding t (t_twt t when there is none). ---- *)
 Theorem remove_included_taxes_payable d t0 d1 t1 t :
   d_pit d <> [] -> calculate d = Totals t0 -> as_input d = Some d1 ->
   calculate (strip_doc (d_pit d) d1) = Totals t1 ->
   no_excess_doc (strip_doc (d_pit d) d1) ->
   same_strict_sign_or_zero (t_twt t0) (t_twt t1) ->
   remove_included_taxes d = RitDone t ->
-  t_payable t = t_twt t0 /\ t_twt t = t_twt t1.
+  t_payable t = t_twt t0 /\ t_twt t = t_twt t1 /\
+  t_rounding t = (if equals (t_twt t0) (t_twt t1) then None else Some (sub (t_twt t0) (t_twt t1))) /\
+  payable_is_twt_plus_rounding t.
 Proof. exact (rit_payable d t0 d1 t1 t). Qed.
 Print Assumptions remove_included_taxes_payable.
 
@@ -204,7 +208,9 @@ Theorem remove_included_taxes_payable_when_stripped_document_is_a_fixpoint ds d 
   (forall d3, as_input (strip_doc_with ds (d_pit d) d1) = Some d3 -> calculate d3 = calculate (strip_doc_with ds (d_pit d) d1)) ->
   same_strict_sign_or_zero (t_twt t0) (t_twt t1) ->
   remove_included_taxes_with ds d = RitDone t ->
-  t_payable t = t_twt t0 /\ t_twt t = t_twt t1.
+  t_payable t = t_twt t0 /\ t_twt t = t_twt t1 /\
+  t_rounding t = (if equals (t_twt t0) (t_twt t1) then None else Some (sub (t_twt t0) (t_twt t1))) /\
+  payable_is_twt_plus_rounding t.
 Proof. exact (rit_payable_with ds d t0 d1 t1 t). Qed.
 Print Assumptions remove_included_taxes_payable_when_stripped_document_is_a_fixpoint.
 
@@ -236,7 +242,7 @@ Example remove_included_taxes_example :
     d_pit d <> [] /\ calculate d = Totals t0 /\ as_input d = Some d1 /\
     calculate (strip_doc (d_pit d) d1) = Totals t1 /\ no_excess_doc (strip_doc (d_pit d) d1) /\
     same_strict_sign_or_zero (t_twt t0) (t_twt t1) /\ remove_included_taxes d = RitDone t /\
-    t_twt t0 = mkA 1221 2 /\ t_payable t = mkA 1221 2 /\ t_twt t = mkA 1222 2 /\
+    t_twt t0 = mkA 1221 2 /\ t_payable t = mkA 1221 2 /\ t_twt t = mkA 1222 2 /\ t_rounding t = Some (mkA (-1) 2) /\
     rit_document d = Some d' /\ calculate d' = Totals t.
 Proof. exact rit_example. Qed.
 
